@@ -27,8 +27,11 @@ let z_of_int i =
   else if i > 0 then (match n_of_i64 (Int64.of_int i) with Npos p -> Zpos p | N0 -> Z0)
   else (match n_of_i64 (Int64.of_int (-i)) with Npos p -> Zneg p | N0 -> Z0)
 let int_of_z = function Z0 -> 0 | Zpos p -> Int64.to_int (i64_of_pos p) | Zneg p -> - (Int64.to_int (i64_of_pos p))
-let z_of_string s = z_of_int (int_of_string s)
-let string_of_z z = string_of_int (int_of_z z)
+let z_of_string s =
+  if s = "" then Z0
+  else if S.get s 0 = '-' then (match n_of_string (S.sub s 1 (S.length s - 1)) with Npos p -> Zneg p | N0 -> Z0)
+  else (match n_of_string s with Npos p -> Zpos p | N0 -> Z0)
+let string_of_z = function Z0 -> "0" | Zpos p -> Printf.sprintf "%Lu" (i64_of_pos p) | Zneg p -> Printf.sprintf "-%Lu" (i64_of_pos p)
 let rec int_of_nat = function O -> 0 | S n -> 1 + int_of_nat n
 let rec nat_of_int i = if i <= 0 then O else S (nat_of_int (i-1))
 let nlist s = if s = "" then [] else L.map n_of_string (S.split_on_char ',' s)
